@@ -378,7 +378,8 @@ def build_set(which):
         for j in range(10):
             pairs.append((i, j))
     if which == "quick":
-        pairs = [p for k, p in enumerate(pairs) if k % 6 == 0]
+        # one pair per (kind, kind) class plus required/required combinations in both orders
+        pairs = [(0, 3), (3, 0), (0, 8), (1, 0), (0, 6), (6, 0), (3, 9), (4, 5), (5, 4), (6, 7), (2, 1), (8, 4), (9, 2), (3, 3), (7, 3), (0, 1), (4, 6)]
     elif which == "c16":
         pairs = [(3, 6), (0, 4)]
     pcmds = []
@@ -443,6 +444,12 @@ def names_set(which):
         lists = [l for l in lists if len(l) <= 2] + tri
     elif which == "c16":
         lists = [["ab", "abc"], ["é", "éa", "aé"]]
+    if which != "c16":
+        # names outside the pool: two `h` commands that agree beyond what they share with the built-in `help`;
+        # 3- and 4-byte characters that differ only in their last octet; a name equal to the common prefix last
+        extra = [["hax", "hay"], ["hay", "hax", "a"], ["hax", "h", "hay"], ["a中", "a丮"], ["a丮", "a中", "ab"], ["b𝄞", "b𝄟"],
+                 ["abc", "abd", "ab"], ["abcab", "abcabd", "abca"], ["中", "丮"]]
+        lists = lists + [l for l in extra if l not in lists]
     return lists
 
 
